@@ -382,6 +382,23 @@ func (t *gtree) exec(r *result, op string) string {
 
 			return "hang"
 		}
+	case "restart":
+		// pool.Start() by the user on a pool that a group shutdown has stopped: it accepts tasks again; its group's flag
+		// stays set, so no later Group.Shutdown stops it — the harness does (like an orphan)
+		if !t.isPool(a) || t.anyBusy() || t.nodes[a].pool.IsRunning() {
+			return "skip"
+		}
+		n := t.nodes[a]
+		if !within(bound, func() { n.pool.Start() }) {
+			r.fail("termination", fmt.Sprintf("Start of the stopped pool %d did not return", a), classifyPool(n.pool, "start"))
+
+			return "hang"
+		}
+		if !n.pool.IsRunning() {
+			r.fail("group-restart", fmt.Sprintf("pool %d does not run after Start", a), map[string]string{"api": "workerpool.WorkerPool.Start", "effect": "restarted-pool-not-running", "via": "group"})
+		}
+		n.orphan = true
+		r.count("g:restart")
 	case "dec":
 		if !t.isPool(a) || len(t.nodes[a].gates) == 0 {
 			return "skip"
@@ -541,7 +558,11 @@ func genGroupOps(rng *hx.Rng, n int) []string {
 			// a whole Group.Shutdown (skipped on both sides while the group has pending children); pools below it reject from now on
 			ops = append(ops, fmt.Sprintf("g shutdown %d", hx.Pick(rng, groups)))
 		case x < 40:
-			ops = append(ops, fmt.Sprintf("g isshut %d", hx.Pick(rng, groups)))
+			if len(ops) > n/2 && rng.Bool() {
+				ops = append(ops, fmt.Sprintf("g restart %d", hx.Pick(rng, pools))) // skipped on both sides unless the pool is stopped
+			} else {
+				ops = append(ops, fmt.Sprintf("g isshut %d", hx.Pick(rng, groups)))
+			}
 		case x < 60:
 			q := hx.Pick(rng, pools)
 			ops = append(ops, fmt.Sprintf("g inc %d", q))
@@ -760,6 +781,18 @@ func runGroup(line string) *result {
 		}
 		t.finish(r)
 		r.nontriv = line
+	case "restart":
+		// "group restart V": a pool stopped by Group.Shutdown is started again by the user (variant 1: inside a sub-group)
+		t := &gtree{}
+		for _, op := range restartOps(int(seed)) {
+			r.lines = append(r.lines, [2]string{op, t.exec(r, op)})
+			r.count("g:" + strings.Fields(op)[1])
+			if len(r.fails) > 0 {
+				break
+			}
+		}
+		t.finish(r)
+		r.nontriv = line
 	case "stress":
 		groupStress(r, seed)
 		r.count("g:stress")
@@ -819,7 +852,29 @@ func sdwinOps(k, variant int) []string {
 
 func groupCorpus() []string {
 	return []string{"group seq 1 40", "group seq 2 60", "group stress 1", "group stress 2",
-		"group sdwin 0 0", "group sdwin 1 1", "group sdwin 3 0", "group sdwin 6 1"}
+		"group sdwin 0 0", "group sdwin 1 1", "group sdwin 3 0", "group sdwin 6 1", "group restart 0", "group restart 1"}
+}
+
+// restartOps: a group (variant 1: root 0 with sub-group 1) with two pools; a task runs and finishes; Group.Shutdown of the
+// root stops the pools (a Submit is rejected); the user starts the first pool again: it accepts, the task counts up to the
+// root and WaitChildren blocks; a restart of a running pool / of a group is skipped; a second Group.Shutdown is a no-op (the
+// flag is set) and leaves the restarted pool running; the other pool stays stopped.
+func restartOps(variant int) []string {
+	ops := []string{"g newgroup -"}
+	g := 0
+	if variant == 1 {
+		ops = append(ops, "g newgroup 0")
+		g = 1
+	}
+	a, b := g+1, g+2
+	ops = append(ops, fmt.Sprintf("g newpool %d", g), fmt.Sprintf("g newpool %d", g),
+		fmt.Sprintf("g inc %d", a), fmt.Sprintf("g restart %d", a), fmt.Sprintf("g dec %d", a),
+		"g shutdown 0", "g isshut 0", fmt.Sprintf("g isshut %d", g),
+		fmt.Sprintf("g inc %d", a), fmt.Sprintf("g restart %d", a), fmt.Sprintf("g restart %d", a), fmt.Sprintf("g restart %d", g),
+		fmt.Sprintf("g inc %d", a), "g wait 0", fmt.Sprintf("g inc %d", b), fmt.Sprintf("g dec %d", a), "g wait 0",
+		"g shutdown 0", fmt.Sprintf("g inc %d", a), fmt.Sprintf("g inc %d", b), "g wait 0", fmt.Sprintf("g dec %d", a), "g wait 0", "g waitp 0")
+
+	return ops
 }
 
 func genGroup(rng *hx.Rng) string {
